@@ -392,7 +392,44 @@ def rule_map(ctx, M):
 ADAPTERS = {"enumerate::Enumerate": "EnumerateConsumer", "limit::Limit": "LimitConsumer", "map::Map": "MapConsumer", "take::Take": "TakeConsumer"}
 
 
+def rule_adapter_ctors(ctx, M, rule, only=None):
+    """`cs.limit(n)` / `take(n)` / `enumerate()` / `map(f)` build the adapter from exactly their operands: the provided
+    method returns `Adapter::new(self, arg)` and `new` stores each parameter in its own field, unchanged."""
+    methods = {"limit": "Limit", "take": "Take", "enumerate": "Enumerate", "map": "Map"}
+    for meth, adt in sorted(methods.items()):
+        if only and adt not in only:
+            continue
+        mb = [x for x in M.F.bodies if x.def_.endswith("concurrent_stream::ConcurrentStream::%s" % meth)]
+        nb = [x for x in M.F.bodies if x.kind == "AssocFn" and x.name == "new" and x.impl_trait is None and x.impl_self is not None
+              and (M.adt_of_type(x.impl_self) or "").endswith("concurrent_stream::%s::%s" % (meth, adt))]
+        ctx.require(len(mb) == 1 and len(nb) == 1, "ConcurrentStream::%s and %s::new" % (meth, adt))
+        b = nb[0]
+        bi = M.info(b)
+        rets = flow.returned_values(bi)
+        view = flow.struct_view(M, rets[0][3], adt, bi=bi) if len(rets) == 1 else None
+        probs = []
+        if view is None:
+            probs.append("new does not return one struct literal")
+        else:
+            params = [v for v in view.values() if v[0] == "param"]
+            others = [v for v in view.values() if v[0] != "param" and not (v[0] == "agg" and not v[2]) and v[0] != "const"]
+            if others:
+                probs.append("a field is computed rather than stored (%s)" % short(others[0]))
+            if sorted(p[1] for p in params) != list(range(1, b.argc + 1)):
+                probs.append("the parameters are not stored one per field")
+            if view.get("inner") != ("param", 1):
+                probs.append("`inner` is not the wrapped stream")
+        ctx.check(not probs, rule, b.def_, "%s::new stores its operands unchanged" % adt, site=b.span, path=probs)
+        m = mb[0]
+        mi = M.info(m)
+        rets = flow.returned_values(mi)
+        t = rets[0][3] if len(rets) == 1 else None
+        ok = t is not None and t[0] == "call" and t[1] == (adt, "new") and tuple(t[2]) == tuple(("param", k + 1) for k in range(m.argc))
+        ctx.check(ok, rule, m.def_, "%s(self, ..) = %s::new(self, ..)" % (meth, adt), site=m.span, sample={"ret": short(t) if t else None})
+
+
 def rule_stack(ctx, M):
+    rule_adapter_ctors(ctx, M, "C15.STACK")
     for suffix, cname in sorted(ADAPTERS.items()):
         e = c13.find_costream(M, suffix)
         ctx.require(e is not None and e["drive"] is not None, "%s::drive coroutine" % suffix)
